@@ -453,4 +453,265 @@ theorem unravel_lex (ls : List Nat) (j k : Nat) (hjk : j < k) (hk : k < prod ls)
       rw [heq] at hj
       omega
 
+/-! ### the matrix odometers -/
+
+theorem succ_div_mod_wrap (n k : Nat) (hn : 0 < n) (h : k % n = n - 1) :
+    (k + 1) / n = k / n + 1 ∧ (k + 1) % n = 0 := by
+  have hk := Nat.div_add_mod k n
+  have e : k + 1 = n * (k / n + 1) := by rw [Nat.mul_add, Nat.mul_one]; omega
+  rw [e]
+  exact ⟨Nat.mul_div_cancel_left _ hn, Nat.mul_mod_right _ _⟩
+
+theorem succ_div_mod_step (n k : Nat) (hn : 0 < n) (h : k % n ≠ n - 1) :
+    (k + 1) / n = k / n ∧ (k + 1) % n = k % n + 1 := by
+  have hk := Nat.div_add_mod k n
+  have hlt := Nat.mod_lt k hn
+  have e : k + 1 = n * (k / n) + (k % n + 1) := by omega
+  rw [e, Nat.mul_add_div hn, Nat.mul_add_mod]
+  have : k % n + 1 < n := by omega
+  rw [Nat.div_eq_of_lt this, Nat.mod_eq_of_lt this]
+  exact ⟨rfl, rfl⟩
+
+/-- the row-major iterator after `k` calls -/
+def rowMajorState (rows columns k : Nat) : MatIter :=
+  if rows * columns = 0 then ⟨rows, columns, 0, 0, true⟩
+  else if k < rows * columns then ⟨rows, columns, k / columns, k % columns, false⟩
+  else ⟨rows, columns, rows, 0, true⟩
+
+theorem rowMajorState_zero (rows columns : Nat) :
+    rowMajorState rows columns 0 = MatIter.new rows columns := by
+  unfold rowMajorState MatIter.new
+  by_cases h0 : rows * columns = 0
+  · simp only [h0, if_true]
+    rcases Nat.mul_eq_zero.mp h0 with h | h <;> simp [h]
+  · have hr : 0 < rows := Nat.pos_of_ne_zero fun h => h0 (by simp [h])
+    have hc : 0 < columns := Nat.pos_of_ne_zero fun h => h0 (by simp [h])
+    have : 0 < rows * columns := Nat.mul_pos hr hc
+    simp [h0, this, hr, hc]
+
+theorem rowMajorNext_state (rows columns k : Nat) :
+    rowMajorNext (rowMajorState rows columns k) =
+      .ok (Spec.rowMajorItem rows columns k, rowMajorState rows columns (k + 1)) := by
+  by_cases h0 : rows * columns = 0
+  · simp [rowMajorState, h0, rowMajorNext, Spec.rowMajorItem]
+  · have hr : 0 < rows := Nat.pos_of_ne_zero fun h => h0 (by simp [h])
+    have hc : 0 < columns := Nat.pos_of_ne_zero fun h => h0 (by simp [h])
+    rcases Nat.lt_or_ge k (rows * columns) with hk | hk
+    · have hdiv : k / columns < rows := (Nat.div_lt_iff_lt_mul hc).mpr hk
+      have hmod := Nat.mod_lt k hc
+      have hcs : csub columns 1 = .ok (columns - 1) := by simp [csub]; omega
+      have hrs : csub rows 1 = .ok (rows - 1) := by simp [csub]; omega
+      have hst : rowMajorState rows columns k = ⟨rows, columns, k / columns, k % columns, false⟩ := by
+        simp [rowMajorState, h0, hk]
+      rw [hst]
+      simp only [rowMajorNext, Bool.false_eq_true, if_false, hcs, Spec.rowMajorItem, hk, if_true]
+      by_cases hw : k % columns = columns - 1
+      · obtain ⟨e1, e2⟩ := succ_div_mod_wrap columns k hc hw
+        have hk1 : k + 1 = (k / columns + 1) * columns := by
+          have := Nat.div_add_mod k columns
+          rw [Nat.add_mul, Nat.one_mul, Nat.mul_comm]; omega
+        simp only [hw, beq_self_eq_true, if_true, hrs]
+        by_cases hend : k / columns = rows - 1
+        · have : ¬ (k + 1 < rows * columns) := by
+            rw [hk1, hend]; have : rows - 1 + 1 = rows := by omega
+            rw [this]; omega
+          simp [hend, rowMajorState, h0, this]
+          omega
+        · have hlt : k / columns + 1 < rows := by omega
+          have : k + 1 < rows * columns := by
+            rw [hk1]; exact Nat.mul_lt_mul_of_pos_right hlt hc
+          simp [hend, rowMajorState, h0, this, e1, e2]
+      · obtain ⟨e1, e2⟩ := succ_div_mod_step columns k hc hw
+        have : k + 1 < rows * columns := by
+          have h1 := Nat.div_add_mod k columns
+          have h2 : (k / columns + 1) * columns ≤ rows * columns := Nat.mul_le_mul_right _ hdiv
+          rw [Nat.add_mul, Nat.one_mul, Nat.mul_comm] at h2
+          omega
+        simp [hw, rowMajorState, h0, this, e1, e2]
+    · have hst : rowMajorState rows columns k = ⟨rows, columns, rows, 0, true⟩ := by
+        simp [rowMajorState, h0]; omega
+      have hst' : rowMajorState rows columns (k + 1) = ⟨rows, columns, rows, 0, true⟩ := by
+        simp [rowMajorState, h0]; omega
+      rw [hst, hst']
+      have : ¬ k < rows * columns := by omega
+      simp [rowMajorNext, Spec.rowMajorItem, this]
+
+theorem rowMajorSizeHint_state (rows columns k : Nat) (hfit : rows * columns ≤ usizeMax) :
+    rowMajorSizeHint (rowMajorState rows columns k) =
+      .ok (rows * columns - k, some (rows * columns - k)) := by
+  by_cases h0 : rows * columns = 0
+  · simp only [rowMajorState, h0, if_true, rowMajorSizeHint]
+    have : csub rows 0 = .ok rows := by simp [csub]
+    simp only [this]
+    rcases Nat.mul_eq_zero.mp h0 with h | h
+    · subst h; simp
+    · subst h
+      have hz : csub 0 0 = .ok 0 := by simp [csub]
+      match rows with
+      | 0 => simp
+      | 1 => simp [hz]
+      | x + 2 => simp [hz, cmul, cadd]
+  · have hr : 0 < rows := Nat.pos_of_ne_zero fun h => h0 (by simp [h])
+    have hc : 0 < columns := Nat.pos_of_ne_zero fun h => h0 (by simp [h])
+    rcases Nat.lt_or_ge k (rows * columns) with hk | hk
+    · have hdiv : k / columns < rows := (Nat.div_lt_iff_lt_mul hc).mpr hk
+      have hmod := Nat.mod_lt k hc
+      have hdm := Nat.div_add_mod k columns
+      have hst : rowMajorState rows columns k = ⟨rows, columns, k / columns, k % columns, false⟩ := by
+        simp [rowMajorState, h0, hk]
+      rw [hst]
+      have h1 : csub rows (k / columns) = .ok (rows - k / columns) := by simp [csub]; omega
+      have h2 : csub columns (k % columns) = .ok (columns - k % columns) := by simp [csub]; omega
+      simp only [rowMajorSizeHint, h1, h2]
+      generalize hq : k / columns = q at *
+      generalize hm : k % columns = m at *
+      rw [Nat.mul_comm] at hdm
+      match hrem : rows - q with
+      | 0 => omega
+      | 1 =>
+        have : rows = q + 1 := by omega
+        subst this
+        have : (q + 1) * columns = q * columns + columns := by rw [Nat.add_mul, Nat.one_mul]
+        simp only [Outcome.ok.injEq, Prod.mk.injEq, Option.some.injEq]
+        omega
+      | x + 2 =>
+        have : rows = q + (x + 2) := by omega
+        subst this
+        have e1 : (q + (x + 2)) * columns = q * columns + ((x + 1) * columns + columns) := by
+          rw [Nat.add_mul, show x + 2 = (x + 1) + 1 from rfl, Nat.add_mul (x + 1), Nat.one_mul]
+        have h3 : cmul (x + 1) columns = .ok ((x + 1) * columns) := by simp [cmul]; omega
+        have h4 : cadd (columns - m) ((x + 1) * columns) = .ok (columns - m + (x + 1) * columns) := by
+          simp [cadd]; omega
+        simp only [h3, h4, Outcome.ok.injEq, Prod.mk.injEq, Option.some.injEq]
+        omega
+    · have hst : rowMajorState rows columns k = ⟨rows, columns, rows, 0, true⟩ := by
+        simp [rowMajorState, h0]; omega
+      rw [hst]
+      have : csub rows rows = .ok 0 := by simp [csub]
+      simp only [rowMajorSizeHint, this]
+      have : rows * columns - k = 0 := by omega
+      simp [this]
+
+/-- the column-major iterator after `k` calls -/
+def colMajorState (rows columns k : Nat) : MatIter :=
+  if rows * columns = 0 then ⟨rows, columns, 0, 0, true⟩
+  else if k < rows * columns then ⟨rows, columns, k % rows, k / rows, false⟩
+  else ⟨rows, columns, 0, columns, true⟩
+
+theorem colMajorState_zero (rows columns : Nat) :
+    colMajorState rows columns 0 = MatIter.new rows columns := by
+  unfold colMajorState MatIter.new
+  by_cases h0 : rows * columns = 0
+  · simp only [h0, if_true]
+    rcases Nat.mul_eq_zero.mp h0 with h | h <;> simp [h]
+  · have hr : 0 < rows := Nat.pos_of_ne_zero fun h => h0 (by simp [h])
+    have hc : 0 < columns := Nat.pos_of_ne_zero fun h => h0 (by simp [h])
+    have : 0 < rows * columns := Nat.mul_pos hr hc
+    simp [h0, this, hr, hc]
+
+theorem colMajorNext_state (rows columns k : Nat) :
+    colMajorNext (colMajorState rows columns k) =
+      .ok (Spec.colMajorItem rows columns k, colMajorState rows columns (k + 1)) := by
+  by_cases h0 : rows * columns = 0
+  · simp [colMajorState, h0, colMajorNext, Spec.colMajorItem]
+  · have hr : 0 < rows := Nat.pos_of_ne_zero fun h => h0 (by simp [h])
+    have hc : 0 < columns := Nat.pos_of_ne_zero fun h => h0 (by simp [h])
+    rcases Nat.lt_or_ge k (rows * columns) with hk | hk
+    · have hdiv : k / rows < columns :=
+        (Nat.div_lt_iff_lt_mul hr).mpr (by rw [Nat.mul_comm]; exact hk)
+      have hmod := Nat.mod_lt k hr
+      have hcs : csub columns 1 = .ok (columns - 1) := by simp [csub]; omega
+      have hrs : csub rows 1 = .ok (rows - 1) := by simp [csub]; omega
+      have hst : colMajorState rows columns k = ⟨rows, columns, k % rows, k / rows, false⟩ := by
+        simp [colMajorState, h0, hk]
+      rw [hst]
+      simp only [colMajorNext, Bool.false_eq_true, if_false, hrs, Spec.colMajorItem, hk, if_true]
+      by_cases hw : k % rows = rows - 1
+      · obtain ⟨e1, e2⟩ := succ_div_mod_wrap rows k hr hw
+        have hk1 : k + 1 = rows * (k / rows + 1) := by
+          have := Nat.div_add_mod k rows
+          rw [Nat.mul_add, Nat.mul_one]; omega
+        simp only [hw, beq_self_eq_true, if_true, hcs]
+        by_cases hend : k / rows = columns - 1
+        · have : ¬ (k + 1 < rows * columns) := by
+            rw [hk1, hend]; have : columns - 1 + 1 = columns := by omega
+            rw [this]; omega
+          simp [hend, colMajorState, h0, this]
+          omega
+        · have hlt : k / rows + 1 < columns := by omega
+          have : k + 1 < rows * columns := by
+            rw [hk1]; exact Nat.mul_lt_mul_of_pos_left hlt hr
+          simp [hend, colMajorState, h0, this, e1, e2]
+      · obtain ⟨e1, e2⟩ := succ_div_mod_step rows k hr hw
+        have : k + 1 < rows * columns := by
+          have h1 := Nat.div_add_mod k rows
+          have h2 : rows * (k / rows + 1) ≤ rows * columns := Nat.mul_le_mul_left _ hdiv
+          rw [Nat.mul_add, Nat.mul_one] at h2
+          omega
+        simp [hw, colMajorState, h0, this, e1, e2]
+    · have hst : colMajorState rows columns k = ⟨rows, columns, 0, columns, true⟩ := by
+        simp [colMajorState, h0]; omega
+      have hst' : colMajorState rows columns (k + 1) = ⟨rows, columns, 0, columns, true⟩ := by
+        simp [colMajorState, h0]; omega
+      rw [hst, hst']
+      have : ¬ k < rows * columns := by omega
+      simp [colMajorNext, Spec.colMajorItem, this]
+
+theorem colMajorSizeHint_state (rows columns k : Nat) (hfit : rows * columns ≤ usizeMax) :
+    colMajorSizeHint (colMajorState rows columns k) =
+      .ok (rows * columns - k, some (rows * columns - k)) := by
+  by_cases h0 : rows * columns = 0
+  · simp only [colMajorState, h0, if_true, colMajorSizeHint]
+    have : csub columns 0 = .ok columns := by simp [csub]
+    simp only [this]
+    rcases Nat.mul_eq_zero.mp h0 with h | h
+    · subst h
+      have hz : csub 0 0 = .ok 0 := by simp [csub]
+      match columns with
+      | 0 => simp
+      | 1 => simp [hz]
+      | x + 2 => simp [hz, cmul, cadd]
+    · subst h; simp
+  · have hr : 0 < rows := Nat.pos_of_ne_zero fun h => h0 (by simp [h])
+    have hc : 0 < columns := Nat.pos_of_ne_zero fun h => h0 (by simp [h])
+    rcases Nat.lt_or_ge k (rows * columns) with hk | hk
+    · have hdiv : k / rows < columns :=
+        (Nat.div_lt_iff_lt_mul hr).mpr (by rw [Nat.mul_comm]; exact hk)
+      have hmod := Nat.mod_lt k hr
+      have hdm := Nat.div_add_mod k rows
+      have hst : colMajorState rows columns k = ⟨rows, columns, k % rows, k / rows, false⟩ := by
+        simp [colMajorState, h0, hk]
+      rw [hst]
+      have h1 : csub columns (k / rows) = .ok (columns - k / rows) := by simp [csub]; omega
+      have h2 : csub rows (k % rows) = .ok (rows - k % rows) := by simp [csub]; omega
+      simp only [colMajorSizeHint, h1, h2]
+      generalize hq : k / rows = q at *
+      generalize hm : k % rows = m at *
+      match hrem : columns - q with
+      | 0 => omega
+      | 1 =>
+        have : columns = q + 1 := by omega
+        subst this
+        have : rows * (q + 1) = rows * q + rows := by rw [Nat.mul_add, Nat.mul_one]
+        simp only [Outcome.ok.injEq, Prod.mk.injEq, Option.some.injEq]
+        omega
+      | x + 2 =>
+        have : columns = q + (x + 2) := by omega
+        subst this
+        have e1 : rows * (q + (x + 2)) = rows * q + ((x + 1) * rows + rows) := by
+          rw [Nat.mul_add, show x + 2 = (x + 1) + 1 from rfl, Nat.mul_add rows (x + 1), Nat.mul_one,
+            Nat.mul_comm rows (x + 1)]
+        have h3 : cmul (x + 1) rows = .ok ((x + 1) * rows) := by simp [cmul]; omega
+        have h4 : cadd (rows - m) ((x + 1) * rows) = .ok (rows - m + (x + 1) * rows) := by
+          simp [cadd]; omega
+        simp only [h3, h4, Outcome.ok.injEq, Prod.mk.injEq, Option.some.injEq]
+        omega
+    · have hst : colMajorState rows columns k = ⟨rows, columns, 0, columns, true⟩ := by
+        simp [colMajorState, h0]; omega
+      rw [hst]
+      have : csub columns columns = .ok 0 := by simp [csub]
+      simp only [colMajorSizeHint, this]
+      have : rows * columns - k = 0 := by omega
+      simp [this]
+
 end EasyMl.Iter
